@@ -679,6 +679,11 @@ func (en *extensionNode) getNextHashAndKey(key []byte) (bool, []byte, []byte) {
 		return false, nil, nil
 	}
 
+	keyMatchesExtension := len(key) >= len(en.Key) && bytes.Equal(en.Key, key[:len(en.Key)])
+	if !keyMatchesExtension {
+		return false, nil, nil
+	}
+
 	nextKey := key[len(en.Key):]
 	wantHash := en.EncodedChild
 
